@@ -26,6 +26,45 @@ C_SQRT = 256.0    # square-root contract: |B B^T - c P| <= C_SQRT * n * eps * c 
 C_UT = 4.0       # moments
 
 
+# ------------------------------------------------------------------------------------------------ replay registry
+
+REG = {}   # input line -> (stage, JSON-able snapshot of the case description), filled when the cases are created
+
+
+def snap(meta):
+    """JSON-able deep copy of a case description (layouts as tagged lists; derived, non-serialisable entries dropped)"""
+    import json
+    if isinstance(meta, Lay):
+        return {"__lay__": [meta.lin, meta.circ, meta.quat, meta.noise]}
+    if isinstance(meta, dict):
+        out = {}
+        for k, v in meta.items():
+            try:
+                out[k] = snap(v)
+                json.dumps(out[k])
+            except TypeError:
+                out.pop(k, None)
+        return out
+    if isinstance(meta, (list, tuple)):
+        return [snap(v) for v in meta]
+    return meta
+
+
+def unsnap(x):
+    if isinstance(x, dict):
+        if "__lay__" in x:
+            return Lay(*x["__lay__"])
+        return {k: unsnap(v) for k, v in x.items()}
+    if isinstance(x, list):
+        return [unsnap(v) for v in x]
+    return x
+
+
+def register(stage, cases):
+    for line, meta in cases:
+        REG[line] = (stage, snap(meta))
+
+
 # ------------------------------------------------------------------------------------------------ small helpers
 
 def fr(x):
@@ -127,7 +166,7 @@ PSD_STYLES = ["full", "full", "full", "dyadic", "singular", "dyadic-singular", "
 
 # ------------------------------------------------------------------------------------------------ weights stage
 
-def weights_stage(ctx, binary, stats, hist):
+def weights_stage(ctx, binary, stats, hist, only=None):
     g = ctx.gen("weights")
     r = g.r
     cases = []
@@ -145,6 +184,9 @@ def weights_stage(ctx, binary, stats, hist):
             cases.append(("utwd", (lin, circ, noise, quat), a, b, k, None))
         else:
             cases.append(("utw", n, a, b, k, None))
+    if only is not None:
+        cases = [tuple(c[1]["case"]) for c in only]
+        cases = [(c[0], tuple(c[1]) if isinstance(c[1], list) else c[1], c[2], c[3], c[4], None) for c in cases]
     lines = []
     for op, n, a, b, k, _ in cases:
         if op == "utw":
@@ -152,6 +194,7 @@ def weights_stage(ctx, binary, stats, hist):
         else:
             lin, circ, noise, quat = n
             lines.append("utwd %d %d %d %d %s %s %s" % (lin, circ, noise, 1 if quat else 0, hexd(a), hexd(b), hexd(k)))
+    register("weights", [(l, {"case": list(c[:5])}) for l, c in zip(lines, cases)])
     hout, logs = vlib.run_harness(binary, lines)
     dout = vlib.run_driver(lines)
     prop_bad, corr_bad = [], []
@@ -284,10 +327,11 @@ def sp_case(g, tier):
     return " ".join(toks), meta
 
 
-def points_stage(ctx, binary, stats, hist):
+def points_stage(ctx, binary, stats, hist, only=None):
     g = ctx.gen("points")
     N = ctx.n(70, 2500)
-    cases = [sp_case(g, ctx.tier) for _ in range(N)]
+    cases = [sp_case(g, ctx.tier) for _ in range(N)] if only is None else only
+    register("points", cases)
     lines = [c[0] for c in cases]
     hout, logs = vlib.run_harness(binary, lines)
     # model of augmentWithNoise, applied once per augmentation
@@ -664,12 +708,11 @@ def exact_instances(ctx, stats, hist):
     return len(lines), bad
 
 
-def transform_stage(ctx, binary, stats, hist, notes):
+def transform_stage(ctx, binary, stats, hist, notes, only=None):
     g = ctx.gen("transform")
     N = ctx.n(150, 5000)
-    cases = []
-    corpus = vlib.VERIF / "corpus" / "C03" / "cases.txt"
-    cases += [ut_case(g, ctx.tier, i) for i in range(N)]
+    cases = [ut_case(g, ctx.tier, i) for i in range(N)] if only is None else only
+    register("transform", cases)
     lines = [c[0] for c in cases]
     hout, logs = vlib.run_harness(binary, lines)
     prop_bad, corr_bad = [], []
@@ -1192,10 +1235,11 @@ def circ_compare(meta, o, comps, spl_out, utl_out, stats):
     return probs
 
 
-def circ_stage_impl(ctx, binary, stats, hist, notes):
+def circ_stage_impl(ctx, binary, stats, hist, notes, only=None):
     g = ctx.gen("circular")
     N = ctx.n(90, 3000)
-    cases = [circ_case(g, ctx.tier) for _ in range(N)]
+    cases = [circ_case(g, ctx.tier) for _ in range(N)] if only is None else only
+    register("circular", cases)
     lines = [c[0] for c in cases]
     hout, logs = vlib.run_harness(binary, lines)
     prop_bad, corr_bad = [], []
@@ -1242,8 +1286,8 @@ def circ_stage_impl(ctx, binary, stats, hist, notes):
     return len(cases), lines, prop_bad, corr_bad
 
 
-def circ_stage(ctx, binary, stats, hist, notes):
-    return circ_stage_impl(ctx, binary, stats, hist, notes)
+def circ_stage(ctx, binary, stats, hist, notes, only=None):
+    return circ_stage_impl(ctx, binary, stats, hist, notes, only)
 
 
 # ------------------------------------------------------------------------------------------------ run
@@ -1252,23 +1296,44 @@ def run(ctx):
     ctx.proof_stage()
     binary = vlib.build_harness("h_ut")
     stats, hist, notes = {}, {}, {}
-    nw, wlines, w_prop, w_corr, w_crash = weights_stage(ctx, binary, stats, hist)
-    npnt, plines, p_prop, p_corr, p_crash = points_stage(ctx, binary, stats, hist)
-    cases, tlines, t_prop, t_corr, t_crash = transform_stage(ctx, binary, stats, hist, notes)
-    nex, ex_bad = exact_instances(ctx, stats, hist)
-    ncirc, clines, c_prop, c_corr = circ_stage(ctx, binary, stats, hist, notes)
+    rp = None
+    if ctx.replay:
+        import json
+        rp = json.load(open(ctx.replay))["replay"]
+
+    def sel(stage):
+        """None: generate; otherwise the single recorded case of a replay file (if it belongs to this stage)"""
+        if rp is None:
+            return None
+        if rp.get("stage") != stage or "meta" not in rp:
+            return []
+        return [(rp["input_line"], unsnap(rp["meta"]))]
+
+    nw, wlines, w_prop, w_corr, w_crash = weights_stage(ctx, binary, stats, hist, sel("weights"))
+    npnt, plines, p_prop, p_corr, p_crash = points_stage(ctx, binary, stats, hist, sel("points"))
+    cases, tlines, t_prop, t_corr, t_crash = transform_stage(ctx, binary, stats, hist, notes, sel("transform"))
+    nex, ex_bad = exact_instances(ctx, stats, hist) if rp is None else (0, [])
+    ncirc, clines, c_prop, c_corr = circ_stage(ctx, binary, stats, hist, notes, sel("circular"))
     prop_bad = w_prop + p_prop + t_prop + c_prop
     corr_bad = w_corr + p_corr + t_corr + c_corr + [(k2, w, l, "") for (k2, w, l) in ex_bad]
+
+    def rdata(line, h, extra=None):
+        stage, meta = REG.get(line, (None, None))
+        d = {"harness": "h_ut", "stage": stage, "input_line": line, "meta": meta, "observed": h[:3000],
+             "how": "python3 check.py C03 --replay <this file> re-runs exactly this case against the current tree"}
+        d.update(extra or {})
+        return d
+
     seen = set()
     for key2, what, line, h in prop_bad:
         if key2 in seen:
             continue
         seen.add(key2)
-        ctx.violation(key2, "unscented transform: " + what, {"harness": "h_ut", "input_line": line, "observed": h[:3000]})
+        ctx.violation(key2, "unscented transform: " + what, rdata(line, h))
     if corr_bad and not prop_bad:
         key2, what, line, h = corr_bad[0]
         ctx.violation("correspondence:" + key2, "model and implementation disagree (%d cases), no property predicate failed: %s" % (len(corr_bad), what),
-                      {"harness": "h_ut", "correspondence": "BFL.unscentedTransform / utWeights / sigmaPoints vs sigma_point.cpp", "input_line": line, "observed": h[:3000]}, no_input=True)
+                      rdata(line, h, {"correspondence": "BFL.unscentedTransform / utWeights / sigmaPoints vs sigma_point.cpp"}), no_input=True)
     all_lines = wlines + plines + tlines + clines
     nontrivial = set()
     for (line, meta) in cases:
@@ -1284,7 +1349,7 @@ def run(ctx):
                 "transform: generic overload and the four model overloads with harness-defined affine models (dims 1..5, noise rows 0..3, "
                 "components 1..4, non-symmetric / rank-deficient / zero A, failing evaluations); exact instances: model only, dyadic factor; "
                 "non-trivial = more than one input dimension or more than one component (weights cases are not counted); distinct = distinct input lines",
-        "samples": [wlines[0], plines[0][:300], tlines[0][:400], tlines[-1][:400]],
+        "samples": [l[:400] for l in (wlines[:1] + plines[:1] + tlines[:1] + tlines[-1:] + clines[:1])],
         "branch_histogram": hist, "numeric_max_error_over_tolerance": stats, "notes_not_alarmed": notes,
         "traces_validated_against_impl": nw + npnt + len(cases) + ncirc,
         "exact_theorem_instances_on_Q": nex,
